@@ -866,11 +866,14 @@ func iteReader(c bool, a, b io.Reader) io.Reader {
 //@   invoke io.Reader.Read ensures [rejstate] inErr(r.Source) != ErrInvalidUTF8 && c_err == ErrInvalidUTF8 ==> r.utf8.state == 12
 //@   invoke io.Reader.Read ensures [okstate]  c_err != ErrInvalidUTF8 ==> r.utf8.state != 12
 //@   invoke io.Reader.Read ensures [chaininv] validUTF8State(r.utf8.state) && r.raw.N >= 0 && streamOK(r.Source)
+//@   invoke io.Reader.Read ensures [limited] r.raw.N == old(r.raw.N)-int64(inPos(r.Source)-old(inPos(r.Source))) && inPos(r.Source) >= old(inPos(r.Source))
+//@   invoke io.Reader.Read ensures [ended]  c_err == io.EOF ==> r.raw.N == 0 || (inPos(r.Source) == inEnd(r.Source) && inErr(r.Source) == io.EOF)
 //@   requires [inv]   invReader(r) && streamOK(r.Source) && len(r.Extensions) == 0 && r.OnContinuation == nil && r.OnIntermediate == nil && notPartOf(p, r) && (r.frame == nil ==> r.raw.N == 0) && r.utf8.state != 12
 //@   ensures  [noadvance] old(r.frame) == nil && old(r.State)&ws.StateFragmented == 0 ==> n == 0 && err == ErrNoFrameAdvance
 //@   ensures  [n]     err != ErrInvalidUTF8 ==> 0 <= n && n <= len(p)
 //@   ensures  [eof]   err == io.EOF ==> idleReader(r) && r.State&ws.StateFragmented == 0
 //@   ensures  [short] err == nil && r.frame != nil ==> r.raw.N != 0
+//@   ensures  [cleaneof] err == io.EOF && old(r.frame) != nil ==> inEnd(r.Source)-old(inPos(r.Source)) >= int(old(r.raw.N))
 //@   ensures  [more]  err == nil && r.frame == nil ==> r.State&ws.StateFragmented != 0 && r.raw.N == 0
 //@   ensures  [invalid] old(r.frame) != nil && err == ErrInvalidUTF8 && inErr(r.Source) != ErrInvalidUTF8 ==> idleReader(r) || r.utf8.state == 12
 //@   ensures  [inv]   invReader(r) && streamOK(r.Source)
